@@ -81,6 +81,7 @@ def build_jobs(spec, tier, known, solver):
                 "max_paths": h.get("max_paths_" + tier, h.get("max_paths", 0)),
                 "samples": h.get("samples", 2),
                 "makeslice_max": h.get("makeslice_max", 0),
+                "inject_failures": h.get("inject_failures", False),
                 "known": [k for k in known if k.get("harness") in (None, h["func"])],
                 "_pkg": h.get("pkg", spec["pkg"]),
                 "_weight": h.get("weight", 1),
@@ -142,7 +143,7 @@ def reproduced(finding, report):
     if report is None or "error" in report:
         return False
     if finding["kind"] == "assert":
-        return finding["msg"] in report.get("failed", [])
+        return finding["msg"] in (report.get("failed") or [])
     # implicit obligations (index, nil, type assertion, division, explicit panic): any native panic
     return "panic" in report
 
@@ -210,7 +211,7 @@ def run_check(prop, tier, seed, spec, entries, ov, solver, workdir, t0, known):
         load_s = max(load_s, r.get("load_s", 0))
         if r.get("error"):
             errors.append(r["error"])
-        got = r.get("harnesses", [])
+        got = r.get("harnesses") or []
         if len(got) != len(b) and not r.get("error"):
             errors.append("gosx stopped early (rc=%s): %s" % (r.get("_rc"), r.get("_stdout", "")[-1500:]))
         for h in got:
@@ -249,8 +250,14 @@ def run_check(prop, tier, seed, spec, entries, ov, solver, workdir, t0, known):
             lst.append({"harness": h["func"], "model": s["model"], "params": h.get("params") or {}})
             nsamp += 1
     reports = {}
+    t_sym = time.time() - t0
     for pkg, items in items_by_pkg.items():
         reports[pkg] = native_batch(pkg, items, ov, workdir)
+    t_nat = time.time() - t0 - t_sym
+    if os.environ.get("VERIF_VERBOSE"):
+        print("timing: symbolic %.1fs (max load %.1fs, shards %d), native %.1fs" % (t_sym, load_s, len(shards), t_nat))
+        for (pkg, b), r in zip(shards, results):
+            print("  shard %s cases=%d wall=%.1fs load=%.1fs" % (pkg, len(b), r.get("_wall", 0), r.get("load_s", 0)))
     violations, known_lines, spurious, validated, mismatches = [], [], [], 0, []
     nrep = 0
     for pkg, idx, kind, h, x in refs:
